@@ -3,7 +3,7 @@ import copy
 import random
 import sys
 
-from common import main
+from common import main, budget
 import build
 
 LABELS = ["car", "pedestrian", "bicycle", "unknown", "false_positive", "truck"]
@@ -125,7 +125,7 @@ def check_case(objs, is_gt, p, ego, results=None):
 def search(item, seed):
     rnd = random.Random(seed * 7919 + 13)
     grid = [-4.5, -2.5, -1.0, -0.25, 0.25, 1.0, 2.0, 2.5, 4.0, 4.5]     # on and around the configured bounds
-    for it in range(1500):
+    for it in range(budget(1500)):
         use_map = rnd.random() < 0.5
         ego = dict(x=rnd.choice([0.0, 10.0, -3.0]), y=rnd.choice([0.0, 5.0]), yaw=rnd.choice([0.0, 0.5, 1.5707963, 3.0])) if use_map else None
         if ego and rnd.random() < 0.4:      # a tilted ego (slope): ego-relative means relative to the ego's own axes
